@@ -518,6 +518,41 @@ def run(ctx):
     # every heavy atom of the input is there to be protonated: occupancy, B-factor
     # and serial number never decide whether an atom is read (rule shared with C07)
     common.check_inert_fields(ctx, 'C17.L2', prog, ['numb', 'occ', 'beta'])
+    # ... and the hydrogens a structure brings along are recognised as such in
+    # both spellings: a neutron structure names them D (deuterium).  Every
+    # consumer tests element == 'H', so the symbol has to be folded when the
+    # element is derived; otherwise a D stays in the structure as a 'heavy atom',
+    # is bonded to its nitrogen by the generic distance rule and uses up the
+    # valence the count would have filled with a hydrogen
+    amod = prog.mod('atom')
+    sp = amod.func('Atom.set_properties')
+    folded = []
+    for node in walk_no_nested(sp):
+        if isinstance(node, ast.Assign) and norm(node.targets[0]) == 'self.element' \
+                and isinstance(node.value, ast.Constant) and node.value.value == 'H':
+            for e, pol in facts_at(node, sp):
+                if not (pol and isinstance(e, ast.Compare) and len(e.ops) == 1
+                        and norm(e.left) == 'self.element'):
+                    continue
+                cmp_ = e.comparators[0]
+                rhs = [x.value for x in (cmp_.elts if isinstance(cmp_, (ast.Tuple, ast.List, ast.Set))
+                                         else [cmp_]) if isinstance(x, ast.Constant)]
+                if isinstance(e.ops[0], (ast.Eq, ast.In)) and 'D' in rhs:
+                    folded.append(node)
+    derive = [n for n in walk_no_nested(sp) if isinstance(n, ast.Assign)
+              and norm(n.targets[0]) == 'self.element']
+    ctx.ob('C17.L3', 'isotope:deuterium-is-hydrogen',
+           bool(folded) and all(d.lineno <= folded[-1].lineno for d in derive),
+           'Atom.set_properties ends the derivation of the element by turning the deuterium symbol D '
+           'into H (%d such assignment(s), %d assignments to self.element): the %d element == \'H\' '
+           'tests of the reader, the bond maker, the builder and the group set-up then see a '
+           'deuterated amide/ring/guanidinium hydrogen as the hydrogen it is' % (
+               len(folded), len(derive),
+               sum(1 for m2, q2, f2 in prog.all_funcs() for n in walk_no_nested(f2)
+                   if isinstance(n, ast.Compare) and len(n.ops) == 1
+                   and isinstance(n.comparators[0], ast.Constant) and n.comparators[0].value == 'H'
+                   and norm(n.left).endswith('.element'))),
+           amod, folded[-1] if folded else sp)
     # bond perception feeds the count: record type, residue or chain must not enter
     common.check_pair_routine(ctx, 'C17.L1', prog.mod('bonds'))
     ctx.assume('distance-based bond perception reproduces the templates for residues with regular '
